@@ -65,14 +65,14 @@ impl State {
 
     fn get_aggregation_timestamp(&self) -> Option<u64> {
         match self.config.agg_mode {
-            AggregationMode::Conservative => {
+            AggregationMode::Conservative => None,
+            AggregationMode::Aggressive => {
                 #[cfg(metrics_verif)]
                 if let Some(now) = crate::verif_state_driver::injected_now() {
                     return Some(now);
                 }
                 SystemTime::now().duration_since(SystemTime::UNIX_EPOCH).ok().map(|d| d.as_secs())
             }
-            AggregationMode::Aggressive => None,
         }
     }
 
